@@ -199,12 +199,18 @@ Definition quiescent_inst (s : gstate) (i : nat) : Prop :=
   forall r, snd (gstep s (i, r)) = None.
 
 (* every (instance, rank) pair once: one round of a round-robin scheduler *)
-Definition all_choices (s : gstate) : list choice :=
-  flat_map (fun ix => map (pair (fst ix)) (seq 0 (i_W (snd ix))))
-           (combine (seq 0 (length (g_insts s))) (g_insts s)).
+Fixpoint choices_from (i : nat) (ws : list nat) : list choice :=
+  match ws with
+  | [] => []
+  | w :: t => map (pair i) (seq 0 w) ++ choices_from (S i) t
+  end.
 
-Fixpoint rounds (s : gstate) (n : nat) : list choice :=
-  match n with O => [] | S n' => all_choices s ++ rounds s n' end.
+Definition all_choices (s : gstate) : list choice := choices_from 0 (map i_W (g_insts s)).
+
+Fixpoint rounds_of (l : list choice) (n : nat) : list choice :=
+  match n with O => [] | S n' => l ++ rounds_of l n' end.
+
+Definition rounds (s : gstate) (n : nat) : list choice := rounds_of (all_choices s) n.
 
 (* measure: an upper bound on the number of steps a rank can still take *)
 Definition pc_measure (W : nat) (p : pc) : nat :=
